@@ -90,7 +90,8 @@ def roc_event(ev, s, o, a, x, g):
             kw["fpr"] = [q[0] / q[1] for q in a["fpr"]]          # list input
         if a["thr"]:
             kw["thresholds"] = np.array([conc_thr(g, t) for t in a["thr"]])
-        kw["nb_points"] = None if a["nb"] == -1 else a["nb"]
+        # nb_points as a Python int or as a NumPy integer scalar (e.g. the result of np.minimum(n, k))
+        kw["nb_points"] = None if a["nb"] == -1 else [a["nb"], np.int64(a["nb"]), np.int32(a["nb"])][e["id"] % 3]
         c = roc(s, x_axis=x, **kw)
         th = np.asarray(c.thresholds, dtype=float)
         e["out"]["thr"] = [proj(t) for t in th]
